@@ -264,13 +264,16 @@ def run_stage(stage, workdir, seed, tier, result):
     if stage.mc:
         module, cfg = stage.mc
         out = os.path.join(workdir, tag + '.mc.out')
-        run_tlc(module, cfg, out, workdir, workers=1 if stage.sim else stage.mc_workers, xmx=stage.mc_xmx, simulate=stage.sim, seed=seed)
+        run_tlc(module, cfg, out, workdir, workers=1 if stage.sim else stage.mc_workers, xmx=stage.mc_xmx, simulate=stage.sim, seed=seed,
+                timeout=1800 if tier == 'quick' else 10800)
         states, trans, scripts, errors = parse_mc_output(out)
         if errors:
             raise ToolError('model checking %s/%s: %s' % (module, cfg, errors[0]))
         os.remove(out)
     if stage.gen:
         scripts += stage.gen(seed, tier)
+    # TLC workers print in a nondeterministic order: sort, so that script numbers and sampled variants are reproducible
+    scripts.sort(key=lambda x: json.dumps(x, sort_keys=True))
     if stage.post:
         scripts = stage.post(scripts, seed, tier)
     for i, s in enumerate(scripts):
@@ -282,7 +285,7 @@ def run_stage(stage, workdir, seed, tier, result):
     tpath = os.path.join(workdir, tag + '.trace.ndjson')
     replay(spath, tpath)
     verdicts, drifts, notes, events, errors = validate(stage.trace, stage.trace + '.cfg', tpath, workdir, tag,
-                                                       shard_events=stage.shard_events)
+                                                       shard_events=stage.shard_events, timeout=3600 if tier == 'quick' else 14400)
     if errors:
         # verdicts already printed are sound; remember the tool error, it decides the exit code only if nothing was found
         result['tool_errors'].append('trace validation %s: %s' % (stage.trace, errors[0]))
